@@ -111,6 +111,95 @@ def sync_wait_release_rules(ctx, rule='R5'):
                      'the untimed %s.wait() in %s is not released when the attempt ends with `%s` (handler %s never sets the event): the call blocks forever' % (ev, fn, outcome, h))
 
 
+def disconnect_listener_rules(ctx, rule='R2', cg=None):
+    """The listeners of Crazyflie.disconnected run one after the other in one Caller.call, without a barrier between them: one that
+    raises keeps the later ones from running (Memory never fails its pending requests, SyncCrazyflie never releases open_link, the
+    fetchers stay subscribed).  Two ways of raising out of a clean-up that are visible in the code, checked in everything the call
+    graph reaches from those listeners: a lock released "just in case" - not acquired in that function - raises RuntimeError when it is
+    not held, so it sits in a try that catches it; an attribute that is None while idle (assigned None outside __init__, or left None
+    by __init__) is used only where a test says it is not.  Shared with C06 and C19."""
+    m = ctx.model
+    cg = cg or CallGraph(m)
+    starts = sorted({f_ for f_, _ in cg.registrations.get(('Crazyflie', 'disconnected'), [])})
+    ctx.need(len(starts) >= 6, 'listeners of Crazyflie.disconnected not found in the call graph (%d)' % len(starts))
+    prev = cg.reachable(starts)
+
+    def catches(h):
+        if h.type is None:
+            return True
+        ts = [norm(t) for t in (h.type.elts if isinstance(h.type, ast.Tuple) else [h.type])]
+        return any(t in ('RuntimeError', 'Exception', 'BaseException') for t in ts)
+    n_rel = n_opt = 0
+    for f_id in sorted(prev):
+        f = cg.funcs.get(f_id)
+        if f is None or not str(f.path).startswith('cflib/'):
+            continue
+        for c in walk_own(f.node):
+            if method_call(c, 'release') and not c.args:
+                lock = norm(c.func.value)
+                acq = [a for a in walk_own(f.node) if method_call(a, 'acquire') and norm(a.func.value) == lock]
+                intry = any(isinstance(t, ast.Try) and any(c is x for s_ in t.body for x in ast.walk(s_)) and any(catches(h) for h in t.handlers) for t in walk_own(f.node))
+                n_rel += 1
+                ctx.inst(rule, f, 'forced-release-cannot-raise:' + lock, bool(acq) or intry,
+                         '%s.release() in %s runs on the disconnect path (%s) without having acquired the lock there: releasing a lock that is not held raises RuntimeError, '
+                         'which must be caught on the spot or the remaining disconnect listeners never run' % (lock, f.qualname, ' <- '.join(cg.chain(prev, f_id))[:160]), line=c.lineno)
+        cls = f.cls
+        if cls is None:
+            continue
+        idle = set()
+        for mm in cls.methods.values():
+            sts = [s_ for s_ in walk_own(mm.node) if isinstance(s_, ast.Assign)]
+            for s_ in sts:
+                tg, vl = s_.targets[0], s_.value
+                pairs = list(zip(tg.elts, vl.elts)) if isinstance(tg, ast.Tuple) and isinstance(vl, ast.Tuple) and len(tg.elts) == len(vl.elts) else [(t_, vl) for t_ in s_.targets]
+                for t_, v_ in pairs:
+                    if isinstance(t_, ast.Attribute) and norm(t_.value) == 'self' and isinstance(v_, ast.Constant) and v_.value is None:
+                        later = mm.name == '__init__' and any(s2.lineno > s_.lineno and any(norm(t2) == norm(t_) for t2 in s2.targets) and
+                                                              not (isinstance(s2.value, ast.Constant) and s2.value.value is None) for s2 in sts)
+                        if not later:
+                            idle.add(t_.attr)
+        if not idle:
+            continue
+        g = cfg_of(f)
+        loc = {}
+        for s_ in walk_own(f.node):
+            if isinstance(s_, ast.Assign):
+                tg, vl = s_.targets[0], s_.value
+                pairs = list(zip(tg.elts, vl.elts)) if isinstance(tg, ast.Tuple) and isinstance(vl, ast.Tuple) and len(tg.elts) == len(vl.elts) else [(tg, vl)]
+                for t_, v_ in pairs:
+                    if isinstance(t_, ast.Name) and isinstance(v_, ast.Attribute) and norm(v_.value) == 'self' and v_.attr in idle:
+                        loc[t_.id] = 'self.' + v_.attr
+        for c in walk_own(f.node):
+            if not (isinstance(c, ast.Call) and isinstance(c.func, ast.Attribute)):
+                continue
+            r = c.func.value
+            rn = norm(r)
+            if not ((isinstance(r, ast.Attribute) and norm(r.value) == 'self' and r.attr in idle) or (isinstance(r, ast.Name) and r.id in loc)):
+                continue
+            nd = g.node_of(c)
+            keys = g.fact_keys_at(nd) if nd is not None else set()
+            names = [x for x in (rn, loc.get(rn)) if x]
+            want = set()
+            for x in names:
+                want |= {fact_key(x, True), fact_key('%s is not None' % x, True), fact_key('%s is None' % x, False), fact_key('%s != None' % x, True)}
+            n_opt += 1
+            ctx.inst(rule, f, 'idle-attribute-used-under-test:%s.%s' % (rn, c.func.attr), bool(want & set(keys)),
+                     '%s.%s() in %s (disconnect path): %s is None while idle and no test on this path says it is not - an AttributeError here ends the disconnect '
+                     'notification for every later listener' % (rn, c.func.attr, f.qualname, ' / '.join(names)), line=c.lineno)
+    ctx.need(n_rel >= 1 and n_opt >= 1, 'disconnect path: forced release (%d) / idle attribute use (%d) not found' % (n_rel, n_opt))
+
+
+def failed_open_rules(ctx, rule='R1'):
+    """A link driver that open_link obtained is closed again when the set-up that follows raises (shared with C19: the swarm closes
+    only members it knows to be open, a member whose open failed half-way must not keep its driver)."""
+    m = ctx.model
+    ol = m.cls(CF, 'Crazyflie').method('open_link')
+    tr = [t for t in walk_own(ol.node) if isinstance(t, ast.Try)]
+    h0 = tr[0].handlers[0] if len(tr) == 1 and tr[0].handlers else None
+    hc = [c for s in (h0.body if h0 else []) for c in walk_own(s) if method_call(c, 'close') and norm(c.func.value) in link_names(ol)]
+    ctx.inst(rule, ol, 'failed-open-closes-link', len(hc) == 1, 'a link that was obtained is closed when set-up raises')
+
+
 def check(ctx):
     m = ctx.model
     K = m.cls(CF, 'Crazyflie')
@@ -139,8 +228,9 @@ def check(ctx):
     ctx.inst('R1', ol, 'no-driver-fails-without-setup', ok, 'without a driver connection_failed is signalled and set-up is not started')
     stn = [n for n in g.nodes if n.kind == 'stmt' and isinstance(n.ast, ast.Assign) and norm(n.ast.targets[0]) == 'self.state']
     ctx.inst('R1', ol, 'state-initialized', len(stn) == 1 and norm(stn[0].ast.value) == 'State.INITIALIZED' and g.dominates(stn[0], g.nodes_containing(look[0])[0]), 'state = INITIALIZED before the driver is looked up')
-    hc = [c for s in (h0.body if h0 else []) for c in walk_own(s) if method_call(c, 'close') and norm(c.func.value) in link_names(ol)]
-    ctx.inst('R1', ol, 'failed-open-closes-link', len(hc) == 1, 'a link that was obtained is closed when set-up raises')
+    failed_open_rules(ctx, 'R1')
+    from .c20 import driver_lookup_rules
+    driver_lookup_rules(ctx, 'R1')      # `if not self.link` means "no driver claimed the URI": get_link_driver returns None then (shared with C20.R5)
 
     # ---- R2 ------------------------------------------------------------------------
     for cb, site in (('link_established', '_check_for_initial_packet_cb'), ('connected', '_param_toc_updated_cb'), ('fully_connected', '_all_parameters_updated')):
@@ -181,6 +271,7 @@ def check(ctx):
     reg = [c for c in walk_own(K.method('__init__').node) if method_call(c, 'add_callback') and norm(c.func.value) == 'self.param.all_updated' and [norm(a) for a in c.args] == ['self._all_parameters_updated']]
     ctx.inst('R2', K.method('__init__'), 'fully_connected-on-all-updated', len(reg) == 1, '_all_parameters_updated is registered on param.all_updated')
     param_lookup_rule(ctx, 'R2')
+    disconnect_listener_rules(ctx, 'R2', cg)      # no listener of `disconnected` raises out of its clean-up: the later listeners still run
     fetcher_unsubscribe_rules(ctx, 'R2')     # an aborted attempt leaves no fetcher behind that would signal `connected` again (F-02f)
     ic = K.method('_check_for_initial_packet_cb')
     body = [norm(s) for s in effective(ic.node.body)]
